@@ -78,6 +78,8 @@ def run(tier, seed, pid=PID, calls=CALLS, backend="z3"):
             chk.violation({"clause": v["verdict"]},
                           f"event {v['k']} of session rejected: {v['verdict']}",
                           {"source": src, "steps": steps, "rejected_event": ev, "backend": backend})
+    if pid == "C01":
+        repo_tests_part(chk, ("find_answer",))
     for src in ("A", "B", "R"):
         ex = next((steps for s, steps in sc if s == src), None)
         if ex:
@@ -94,6 +96,22 @@ def run(tier, seed, pid=PID, calls=CALLS, backend="z3"):
         "sol after an unsatisfiable answer is unconstrained",
     ]
     return chk.finish()
+
+
+def repo_tests_part(chk, calls):
+    recs, verdicts = S.repo_test_traces(chk, calls)
+    exact = 0
+    for r in recs:
+        v = verdicts[r["t"]]
+        exact += bool(v["exact"])
+        chk.note_case(f"repo-test/{r['test']}/{r['t']}", len(r["prog"]["cons"]) >= 1)
+        if v["verdict"] != "ok":
+            chk.violation({"clause": v["verdict"], "route": "repository-test-suite"},
+                          f"a {r['call']} call made by the repository's own test {r['test']} is rejected: {v['verdict']}",
+                          {"test": r["test"], "call": r["call"], "ret": r["ret"], "program": r["prog"],
+                           "sol": {k: r[k] for k in ("ty", "b", "n")}})
+    chk.extra["repo_test_calls_validated"] = len(recs)
+    chk.extra["repo_test_calls_validated_exactly (small domain)"] = exact
 
 
 def replay(path):
